@@ -107,6 +107,16 @@ def _run(ctx, pid, thorough, rng, exe, tmp):
             for _ in range(3): s.read("msg"); s.read("err")
             s.up([1], 0x95, [7, 7], drain=False); s.read("msg"); s.drain(); s.read("msg"); s.read("err")
             s.flush(); sessions.append(s.end())
+    # function groups (C09): every function on, off and on again in different orders - each command has to carry the
+    # tracked state of all other functions of its group
+    if pid == "C09":
+        s = g.Session("fnsweep", track_mc.MC_CFG, os.path.join(tmp, "fnsweep"), paths=dict(track_mc.MC_PATHS), full=True)
+        for t in track_mc.MC_CFG["trains"]:
+            fs = [p["id"] for p in t["per"]]
+            for order, v in ((fs, 1), (fs[::2], 0), (fs[::-1], 1), (fs[1::2], 0), (fs, 0), (fs[::-1], 1)):
+                for f in order: s.hl("bidib_set_train_peripheral", [t["id"], f, "bA"], v)
+            for sp in (-126, -1, 0, 1, 0, 126, 0, -5, 0): s.hl("bidib_set_train_speed", [t["id"], "bA"], sp)
+        s.flush(); sessions.append(s.end())
     # field-value sweeps of the conversions (C07): every current / voltage code
     if pid == "C07":
         s = g.Session("sweep", track_mc.MC_CFG, os.path.join(tmp, "sweep"), paths=dict(track_mc.MC_PATHS), full=True)
